@@ -52,6 +52,7 @@ func stressColl() *column.Collection {
 		return v
 	})))
 	c.CreateIndex("big", "a", func(r column.Reader) bool { return r.Int() > 100 })
+	c.CreateIndex("even", "a", func(r column.Reader) bool { return r.Int()%2 == 0 })
 	return c
 }
 
@@ -351,6 +352,11 @@ func runStress(rep *Report, replay string) {
 					txn.WithInt("a", func(v int64) bool { return v%2 == 0 }).Count()
 					return nil
 				})
+				// the multi-index path of WithUnion on a selection that is already set up (readers only share the read latch)
+				c.Query(func(txn *column.Txn) error {
+					txn.With("big").WithUnion("big", "even").Count()
+					return nil
+				})
 			}
 		})
 	}
@@ -453,6 +459,10 @@ func runStress(rep *Report, replay string) {
 			c.CreateIndex(name, "b", func(rd column.Reader) bool { return rd.Int()%2 == 0 })
 			time.Sleep(20 * time.Millisecond)
 			c.DropIndex(name) // a name is re-used only after its index was dropped
+			// a sorted index built beside the writers of its string column
+			c.CreateSortIndex("sorted-s", "s")
+			time.Sleep(5 * time.Millisecond)
+			c.DropIndex("sorted-s")
 		})
 	}
 	// watchdog
